@@ -52,6 +52,7 @@ CHECK = Check(
         "connected and every reliable message delivered; idle with work outstanding = deadlock, five T3 expiries without "
         "progress in the suffix = livelock; horizon reached while progressing = inconclusive. Non-trivial = a T3 expiry "
         "happened and a burst exceeded the congestion window."
+        " Family rto-window: warm-up, then 2-6 chunks whose transmissions and retransmissions are lost / delivered / delayed by about one RTO. Families yielding-send / bundling as in C01."
     ),
     families=[
         Family("sessions", run_session,
